@@ -1,5 +1,6 @@
 import Peppi.TarCut
 import Peppi.SlppBytes
+import Peppi.PeppiJson
 import Peppi.Lemmas.NoPanic
 import Peppi.Lemmas.Example
 /-! **C07, `.slpp` half, byte level.**  The reader of `io/peppi/de.rs` over the lazy tar iterator (`tarScan`), and what it
@@ -467,7 +468,41 @@ theorem exPGame_cut (skip : Bool) (n : Nat) :
   have hend : (none : Option Bytes).map gameEnd = exPGame.fend.map Res.ok := rfl
   exact slppReadL_cut toyCodecT T0 exPGame (exBlock 3 17 760) none hstart hend h2 h3 skip n
 
+theorem parseMeta_noPanic (b : Bytes) (s : String) : parseMeta b ≠ .panic s := by
+  unfold parseMeta
+  split
+  · simp
+  · split <;> simp
+
+/-- any `CodecT` with its `peppi.json` and `metadata.json` parts replaced by the JSON text models: the round-trip laws and
+    the no-panic laws of those entries are theorems (`decPeppiJ_enc`, `parseMeta_json`, `decPeppiJ_noPanic`,
+    `parseMeta_noPanic`); what remains assumed is the Arrow IPC part -/
+def CodecT.withJson (C : CodecT KVs) : CodecT KVs :=
+  { toCodec := C.toCodec.withJson, peppi_np := decPeppiJ_noPanic, meta_np := parseMeta_noPanic, frames_prefix := C.frames_prefix }
+
+/-- the byte-level round trip with both JSON entries the reader looks at as real JSON text -/
+theorem slppRead_written_json2 (C : Codec KVs) (T : TextOracle) (g : PGame KVs) (startBytes : Bytes) (endBytes : Option Bytes)
+    (hstart : gameStart T startBytes = .ok g.start)
+    (hend : endBytes.map gameEnd = g.fend.map Res.ok)
+    (hgecko : ∀ c, g.gecko = some c → c.2 < 2 ^ 32)
+    (hs : SizesOK C.withJson g startBytes endBytes) (skip : Bool) :
+    slppRead C.withJson T skip (slppWrite C.withJson g startBytes endBytes) = .ok (if skip then { g with frames := none } else g) :=
+  slppRead_written C.withJson T g startBytes endBytes hstart hend hgecko hs skip
+
+/-- C07 for `.slpp` with the two JSON entries as real JSON text -/
+theorem slppReadL_cut_json (C : CodecT KVs) (T : TextOracle) (g : PGame KVs) (startBytes : Bytes) (endBytes : Option Bytes)
+    (hstart : gameStart T startBytes = .ok g.start)
+    (hend : endBytes.map gameEnd = g.fend.map Res.ok)
+    (hgecko : ∀ c, g.gecko = some c → c.2 < 2 ^ 32)
+    (hs : SizesOK C.withJson.toCodec g startBytes endBytes) (skip : Bool) (n : Nat) :
+    (∃ m, slppReadL C.withJson.toCodec T skip ((slppWrite C.withJson.toCodec g startBytes endBytes).take n) = .err m) ∨
+    slppReadL C.withJson.toCodec T skip ((slppWrite C.withJson.toCodec g startBytes endBytes).take n) =
+      .ok (if skip then { g with frames := none } else g) :=
+  slppReadL_cut C.withJson T g startBytes endBytes hstart hend hgecko hs skip n
+
 #print axioms slppReadL_cut
 #print axioms slppReadL_written
 #print axioms exPGame_cut
+#print axioms slppReadL_cut_json
+#print axioms slppRead_written_json2
 end Peppi
